@@ -154,7 +154,7 @@ def validate(ctx, items, label, mine, nproc=12):
             ctx.ok_trace()
             if c["kind"] == "pair":
                 ctx.sample({"X": [c["nX"], c["EX"]], "Y": [c["nY"], c["EY"]], "repr": [g["repr"] for g in it["job"]["graphs"]][:2], "seed": it["job"].get("seed"),
-                            "order": it["job"].get("order"), "lb2": c["lb2"], "ub2": c["ub2"], "samples": c["samples"][:3], "verdict": "ok/" + str(v[4])}, cap=4)
+                            "order": it["job"].get("order"), "lb2": c["lb2"], "ub2": c["ub2"], "samples": c["samples"][:3], "verdict": "ok/" + str(v[4])}, cap=4, good=(c["nX"] >= 4 and c["nY"] >= 3 and c["ub2"] > 0))
         elif status == "machinery":
             ctx.machinery_errors.append("TraceMGH: %s on %s" % (clause, key))
         elif status == "divergence":
